@@ -257,6 +257,66 @@ def r15_3(ctx, rep):
         raise MechanismMissing(R, "fewer than 8 uses of the name tables found in the alias pass")
 
 
+def _category_tables(blk):
+    """local name -> Model list it indexes by name:  X = OrderedDict([(s.symbol.name(), s) for s in self.<cat>])"""
+    out = {}
+    for st in ast.walk(blk):
+        if isinstance(st, ast.Assign) and isinstance(st.targets[0], ast.Name) and isinstance(st.value, ast.Call) and st.value.args:
+            comp = st.value.args[0]
+            if isinstance(comp, (ast.ListComp, ast.GeneratorExp, ast.DictComp)) and len(comp.generators) == 1:
+                it = comp.generators[0].iter
+                if isinstance(it, ast.Attribute) and is_name(it.value, "self"):
+                    out[st.targets[0].id] = it.attr
+    return out
+
+
+@SPEC.rule(
+    "R15.4",
+    "the alias pass protects everything it can see except the eliminable category: the categories merged into the "
+    "pass's name universe (all_states.update(<table>)) minus the categories whose names are put into the protected set "
+    "(the set tested with `canonical_signed(..)[0] in <set>`) is exactly {alg_states} — an unprotected non-algebraic "
+    "canonical variable can be unseated, and then two equations are dropped for one removed unknown",
+)
+def r15_4(ctx, rep):
+    R = "R15.4"
+    fn = ctx.func(MODEL, "Model._simplify_once", R)
+    blk = option_blocks(fn).get("detect_aliases")
+    if blk is None:
+        raise MechanismMissing(R, "detect_aliases block not found")
+    site = MODEL + ":Model._simplify_once"
+    tables = _category_tables(blk)
+    # universe: D.update(<table>) calls on one dictionary
+    upd = {}
+    for c in calls(blk):
+        if isinstance(c.func, ast.Attribute) and c.func.attr == "update" and isinstance(c.func.value, ast.Name) and len(c.args) == 1 \
+                and isinstance(c.args[0], ast.Name) and c.args[0].id in tables:
+            upd.setdefault(c.func.value.id, set()).add(tables[c.args[0].id])
+    if not upd:
+        raise MechanismMissing(R, "the alias pass no longer merges the per-category tables into one name universe")
+    universe = max(upd.values(), key=len)
+    # protected set: the name tested with `<...canonical_signed(...)[0]> in NAME`
+    prot_names = set()
+    for n in ast.walk(blk):
+        if isinstance(n, ast.Compare) and len(n.ops) == 1 and isinstance(n.ops[0], (ast.In, ast.NotIn)) and isinstance(n.comparators[0], ast.Name) \
+                and any(isinstance(c, ast.Call) and isinstance(c.func, ast.Attribute) and c.func.attr == "canonical_signed" for c in ast.walk(n.left)):
+            prot_names.add(n.comparators[0].id)
+    if not prot_names:
+        raise MechanismMissing(R, "no `canonical_signed(..)[0] in <protected set>` test left in the alias pass")
+    for pn in sorted(prot_names):
+        cats = set()
+        for st in ast.walk(blk):
+            if isinstance(st, ast.Assign) and is_name(st.targets[0], pn):
+                cats |= {tables[x.id] for x in ast.walk(st.value) if isinstance(x, ast.Name) and x.id in tables}
+            if isinstance(st, ast.Call) and isinstance(st.func, ast.Attribute) and is_name(st.func.value, pn) and st.func.attr in ("update", "add"):
+                cats |= {tables[x.id] for a in st.args for x in ast.walk(a) if isinstance(x, ast.Name) and x.id in tables}
+        missing = universe - cats - {"alg_states"}
+        rep.ob(R, site, "protected set `%s` covers the universe" % pn if len(prot_names) > 1 else "protected set covers the universe",
+               not missing and "alg_states" not in cats,
+               "categories visible to the alias pass %s, protected %s: names of %s can become an eliminated alias although only algebraic "
+               "states may be eliminated" % (sorted(universe), sorted(cats), sorted(missing) or "alg_states (protected, nothing is eliminable)"))
+    rep.ob(R, site, "universe has the six categories", len(universe) >= 6, "expected states, der_states, alg_states, inputs, parameters, constants; found %s" % sorted(universe))
+
+
 # -- seeded variants ---------------------------------------------------------
 from ._mut import delete_stmt_where, replace_in_func, replace_stmt_where  # noqa: E402
 
@@ -360,6 +420,18 @@ def _m8(mod):
                     and "canonical_signed(alg_state.name())" in norm(n.left):
                 new = ast.parse("not do_not_eliminate.isdisjoint(self.alias_relation.aliases(alg_state.name()))", mode="eval").body
                 n.left, n.ops, n.comparators = new, [ast.Is()], [ast.Constant(value=True)]
+                return True
+        return False
+
+    return mod if replace_in_func(mod, "Model._simplify_once", edit) else None
+
+
+@SPEC.mutant("constants not protected in the alias pass", MODEL, "R15.4", "protected set")
+def _m_prot(mod):
+    def edit(fn):
+        for n in ast.walk(fn):
+            if isinstance(n, ast.Assign) and isinstance(n.value, ast.Call) and call_name(n.value) == "set" and "list(constants)" in norm(n.value):
+                n.value = ast.parse(norm(n.value).replace(" + list(constants)", ""), mode="eval").body
                 return True
         return False
 
